@@ -141,14 +141,14 @@ package jet
 //@ func (*Runtime).Let
 //@   props C18 C12
 //@   requires RtOK(state)
-//@   modifies map state.scope.variables
+//@   modifies map state.scope.variables, state.scope.variables
 //@   nopanic
 //@   ensures [let-declares-in-innermost-scope] has(state.scope.variables, name) && forallT(k, "string", k != name ==> state.scope.variables[k] == old(state.scope.variables[k]) && has(state.scope.variables, k) == old(has(state.scope.variables, k)))
 
 //@ func (*Runtime).LetGlobal
 //@   props C18 C12
 //@   requires RtOK(state)
-//@   modifies mapsof VarMap
+//@   modifies mapsof VarMap, type scope.variables
 //@   nopanic
 //@   loop 0 invariant sc != nil && (state.scope.parent == nil || state.scope.parent.variables == nil ==> sc == state.scope)
 //@   ensures [letglobal-single-scope] old(state.scope.parent) == nil || old(state.scope.parent.variables) == nil ==> has(state.scope.variables, name)
